@@ -685,6 +685,9 @@ def check_case(case_json, rng: Optional[random.Random] = None) -> Optional[C.Fai
             shadow = prov.get_identifiable(d[1])          # another store may hold an identifiable with the same id
         except KeyError:
             pass
+        if shadow is root:
+            return C.Failing("ref:resolve:after-discard:still-resolves", f"the provider still returns identifiable {d[1]!r} after it was "
+                             f"discarded from its store", where)
         if shadow is None:
             for p, ref in refs.items():
                 try:
